@@ -92,10 +92,27 @@ for name, (tag, body) in enums.items():
             else: sys.exit(f"extract_introspection: unrecognised variant `{v}` in {name}")
         decls.append(f'("{name}", .tagged "{tag}" [{", ".join(vs)}])')
 
-# the two entry points must be what the model assumes
-if not re.search(r"pub fn parse_introspection_from_string\(input: &str\) -> Result<IntrospectionQuery>\s*\{\s*serde_json::from_str\(input\)\s*\}", src):
+# the two entry points must be what the model assumes: their whole body is the serde_json call on the argument
+# (written with or without a turbofish, `return`, a trailing `;`)
+def fn_body(name):
+    m = re.search(r"pub\s+fn\s+" + name + r"\b", src)
+    if not m: return None
+    k = src.find("{", m.end())
+    if k < 0: return None
+    depth, e = 0, k
+    while e < len(src):
+        if src[e] == "{": depth += 1
+        elif src[e] == "}":
+            depth -= 1
+            if depth == 0: break
+        e += 1
+    body = "".join(src[k + 1:e].split())
+    body = re.sub(r"::<(?:[^<>]|<[^<>]*>)*>", "", body)
+    body = re.sub(r"^return", "", body).rstrip(";")
+    return body
+if fn_body("parse_introspection_from_string") != "serde_json::from_str(input)":
     sys.exit("extract_introspection: parse_introspection_from_string is not `serde_json::from_str(input)`")
-if not re.search(r"pub fn parse_introspection<R>\(input: R\) -> Result<IntrospectionQuery>\s*where\s*R: io::Read,\s*\{\s*serde_json::from_reader::<R, IntrospectionQuery>\(input\)\s*\}", src):
+if fn_body("parse_introspection") != "serde_json::from_reader(input)":
     sys.exit("extract_introspection: parse_introspection is not `serde_json::from_reader(input)`")
 
 os.makedirs(OUT, exist_ok=True)
